@@ -73,10 +73,16 @@ def _meta_lines(rng, indent, p=0.3):
     return out
 
 
-def gen_ledger(rng, ntxn=10, with_queries=True, with_pad=True, start_year=2019, nyears=3, errors_ok=False):
+RENAMED = {'Assets': 'Actifs', 'Liabilities': 'Passifs', 'Equity': 'Capital', 'Income': 'Revenus', 'Expenses': 'Depenses'}
+
+
+def gen_ledger(rng, ntxn=10, with_queries=True, with_pad=True, start_year=2019, nyears=3, errors_ok=False, renamed_roots=False, odd_precision=True):
     """Generate a loadable multi-currency ledger with lots, sales, conversions, prices,
     pad/balance, notes, events, documents, commodities, metadata, tags and links."""
     lines = ['option "title" "Generated ledger"', 'option "operating_currency" "USD"', '']
+    if renamed_roots:
+        for k, v in RENAMED.items():
+            lines.insert(2, f'option "name_{k.lower()}" "{v}"')
     open_date = datetime.date(start_year - 1, 1, 1)
     accounts = list(ACCOUNTS)
     for a in accounts:
@@ -128,6 +134,10 @@ def gen_ledger(rng, ntxn=10, with_queries=True, with_pad=True, start_year=2019, 
             x = D(rng.randint(1, 20000)) / 100
             acc = rng.choice(['Expenses:Food', 'Expenses:Food:Out', 'Expenses:Rent', 'Expenses:Fees'])
             post = [(acc, f'{_amt(x)} USD'), (rng.choice(['Assets:Cash', 'Assets:Bank:Checking']), f'-{_amt(x)} USD')]
+            if odd_precision and rng.random() < 0.15:
+                # more fractional digits than the ledger's usual two (display precision != natural precision)
+                y = D(rng.randint(1, 999999)) / 10000
+                post = [(acc, f'{y} USD'), (rng.choice(['Assets:Cash', 'Assets:Bank:Checking']), f'-{y} USD')]
         elif kind == 'salary':
             x = D(rng.randint(100000, 500000)) / 100
             tax = (x / 5).quantize(D('0.01'))
@@ -220,4 +230,9 @@ def gen_ledger(rng, ntxn=10, with_queries=True, with_pad=True, start_year=2019, 
         lines.append(f'{qd} query "bal" "BALANCES FROM flag = \'*\'"')
         lines.append(f'{qd} query "closed" "SELECT account, sum(position) AS total FROM OPEN ON {start_year}-03-01 CLOSE ON {start_year + 1}-06-01 GROUP BY account ORDER BY account"')
         lines.append(f'{qd} query "plain" "SELECT account, count(*) AS n GROUP BY account ORDER BY account"')
-    return Ledger('\n'.join(lines) + '\n')
+    text = '\n'.join(lines) + '\n'
+    if renamed_roots:
+        import re
+        for k, v in RENAMED.items():
+            text = re.sub(r'\b' + k + r'(?=:)', v, text)
+    return Ledger(text)
